@@ -220,6 +220,7 @@ def run_check(prop, tier):
             violations.append((cls, items))
 
         exit_code = 0
+        gate_failed = False
         reported = []
         for cls, items in violations[:6]:
             job, f, excerpt = items[0]
@@ -232,17 +233,23 @@ def run_check(prop, tier):
                 plan0.pop('from', None)
                 path, why2 = report.gate_and_write(plan0, cls, prop, excerpt, seed, 'v%d_full' % len(reported))
                 if path is None:
+                    if '/hang@' in cls:
+                        # a watchdog expiry that a fresh process does not reproduce was a matter of machine load, not of the code
+                        notes.append('hang not reproduced in a fresh process, dropped: %s (%s)' % (cls, why))
+                        continue
                     print('MACHINERY: %s' % why)
-                    exit_code = max(exit_code, 2)
+                    gate_failed = True
                     continue
             print('VIOLATION property=%s replay=%s' % (prop, path))
             print('  class=%s occurrences=%d minimised_in=%d reruns' % (cls, len(items), reruns))
             print('  ' + (excerpt or '').strip().split('\n')[0][:300])
             reported.append({'class': cls, 'occurrences': len(items), 'replay': path})
-            exit_code = 1 if exit_code == 0 else exit_code
+            exit_code = 1
         for cls, items in violations[6:]:
             print('  (further violation class not minimised: %s x%d)' % (cls, len(items)))
             reported.append({'class': cls, 'occurrences': len(items)})
+        if gate_failed and exit_code == 0:
+            exit_code = 2   # nothing reportable was reproduced, and something was not reproducible: the machinery is in doubt
         if machinery:
             print('MACHINERY: %d run(s) failed in the harness: %s' % (len(machinery), machinery[0]))
             exit_code = 2
